@@ -106,9 +106,10 @@ func init() {
 		for _, sc := range []string{"arr-append-lim", "arr-mixed", "arr-drain-mid"} {
 			ts = append(ts, TrajSpecs(r.ID, sc, 70, 1, 71, step, 1, 256, []string{"t", "limA"}, tor)...)
 		}
-		for _, sc := range []string{"map-grow-lim", "map-drain-front"} {
-			ts = append(ts, TrajSpecs(r.ID, sc, 64, 1, 65, step, 1, 256, []string{"t", "limM"}, tor)...)
+		for _, sc := range []string{"map-grow-lim", "map-grow-desc"} {
+			ts = append(ts, TrajSpecs(r.ID, sc, 96, 1, 97, step, 1, 256, []string{"t", "limM"}, tor)...)
 		}
+		ts = append(ts, TrajSpecs(r.ID, "map-drain-front", 180, 91, 181, step, 1, 256, []string{"t", "limM"}, tor)...)
 		r.ExploreSpecs(ts)
 	}})
 }
